@@ -67,6 +67,7 @@ type Exec struct {
 	extra   []string // extra assertions (ground instances) global to this function
 	wrapped []Term // errors bound to %w verbs of the format being interpreted
 	isInit  bool
+	reportLenient bool
 	ghostFn bool // defined in a verif-tagged file (ghost client)
 	lenient bool
 	inOnce  bool
@@ -853,6 +854,11 @@ func (ex *Exec) runBlock(st *State, b *ssa.BasicBlock, i int) {
 							if val, ok := in.(ssa.Value); ok {
 								st.vals[val] = SV{K: KOpaque, Why: fmt.Sprint(r)}
 							}
+							if ex.reportLenient {
+								// an initialiser the generator cannot evaluate: reported, and the
+								// variable it feeds stays unknown, but the rest of init is still executed
+								ex.failObl("subset", fmt.Sprintf("initialiser@%s", ex.posOf(in)), fmt.Sprint(r), []string{"C12", "C13", "C14"}, in)
+							}
 						}
 					}()
 					forks = ex.step(st, in)
@@ -1178,7 +1184,7 @@ func (ex *Exec) atReturn(st *State, ret *ssa.Return) {
 		ex.assumeUses(st, ex.fc.Uses, ctx)
 	}
 	if ex.isInit {
-		if !ex.lenient {
+		if ex.reportLenient || !ex.lenient {
 			ex.p.recordInit(ex, st)
 		}
 		return
